@@ -16,6 +16,8 @@ pub mod nd;
 #[macro_use]
 pub mod env;
 
+pub mod c04;
+pub mod c05;
 pub mod c07a;
 pub mod c11;
 
@@ -23,6 +25,8 @@ pub mod c11;
 pub fn registry() -> Vec<(&'static str, fn())> {
 	let mut v: Vec<(&'static str, fn())> = vec![];
 	v.extend_from_slice(c07a::HARNESSES);
+	v.extend_from_slice(c05::HARNESSES);
+	v.extend_from_slice(c04::HARNESSES);
 	v.extend_from_slice(c11::HARNESSES);
 	v
 }
